@@ -195,6 +195,15 @@ func (g *c20g) wrapSample(lines []string, prev []string) []string {
 		case "ser":
 			// negative shifts through a round trip are a known finding, matched on the plain line only
 			return !strings.Contains(ln, "S-")
+		case "obj":
+			// lines with a caller-chosen coset shift (`d<s>` tokens) stay plain: the finding on ToLagrangeCoset over an object
+			// that already is in LagrangeCoset form is matched on the plain line only
+			f := strings.Fields(ln)
+			for _, t := range strings.Split(f[len(f)-1], ",") {
+				if strings.HasPrefix(t, "d") {
+					return false
+				}
+			}
 		}
 		return true
 	}
